@@ -75,7 +75,11 @@ func cmdRun(args []string) int {
 			fmt.Printf("  FINDING %s/%s: %s inputs=%v path=%s\n", f.Kind, f.ID, f.Detail, f.Inputs, f.Path)
 			if !*noReplay {
 				path, _ := writeReplay("DEV", f)
-				ro := runNative(path, f.Kind == "race", 60*time.Second)
+				isRace := f.Kind == "race" || f.Kind == "frozen-store"
+				if isRace {
+					buildNative(true)
+				}
+				ro := runNative(path, isRace, 60*time.Second)
 				fmt.Printf("    replay %s: exit=%d failed=%v panicked=%v confirmed=%v\n", path, ro.ExitCode, ro.Failed, ro.Panicked, confirm(f, ro))
 				if !confirm(f, ro) {
 					fmt.Println("    native output:", tail(ro.Out, 600))
